@@ -594,6 +594,7 @@ def C16(rep, prog, tier):
     # the refusal carries the diagnostics: their flags are part of what the caller observes
     _run(rep, diag.flags, ex)
     _run(rep, diag.facts_sat, ex)
+    _run(rep, preocf.factory_dispatch, ex)
 
 
 def C17(rep, prog, tier):
@@ -624,6 +625,8 @@ def C17(rep, prog, tier):
     _run(rep, cinf.minima_roles, ex)  # (which correction sets enter which minimum)
     _run(rep, preocf.world_literals, ex)
     _run(rep, preocf.factory_forwarding, ex, which=("init_random_min_c_rep",))
+    _run(rep, preocf.impacts_observe, ex)
+    _run(rep, preocf.factory_dispatch, ex)
     _run(rep, crev.front_wiring, ex)
     # the constraint system the impacts solve is built from the minimal correction sets of the CNFs: both are part of it
     _encoding_and_enumeration(rep, ex)
@@ -642,6 +645,7 @@ def C18(rep, prog, tier):
     _run(rep, preocf.tpo_order, ex)
     _run(rep, preocf.factory_forwarding, ex, which=("init_custom",))
     _run(rep, preocf.custom_init, ex)
+    _run(rep, preocf.factory_dispatch, ex)
 
 
 def C20(rep, prog, tier):
@@ -659,6 +663,7 @@ def C20(rep, prog, tier):
     _run(rep, preocf.memo_audit, ex, "STATE.pickled")
     _run(rep, preocf.load_rebuild, ex)
     _run(rep, preocf.save_no_mutation, ex)
+    _run(rep, preocf.impacts_observe, ex)
 
 
 def C10(rep, prog, tier):
